@@ -264,7 +264,8 @@ def parse_back(ctx, jobs, built):
             io_out = impl_recv(cur_buf, cur_chunks)
             case = dict(code=ct[0], text=ct[1], buf=cur_buf, chunks=cur_chunks, index=idx, mode=mode)
             if len(ct) > 2:
-                case['start'], case['ops'] = ct[2], [list(o) for o in ct[3]]
+                case.update(order_case(ct[2], ct[3]))
+                case['send_index'] = ct[4]
             calls.append((case, io_out, cur_buf, cur_chunks))
             ctx.evaluated((ct, mode, len(cur_chunks), idx), nontrivial=nontrivial_reply(ct, s))
             remaining_want = b''.join(built[c2][1] for c2 in s[idx + 1:]) + trailer
@@ -481,11 +482,18 @@ ORDER_MSGS = ['2.1.5 Recipient <x> Ok', '5.7.1 Denied', 'Ok', '4.2.0 try\nagain 
 ORDER_ESCS = ['2.3.4', '5.7.1', '4.10.100']
 BAD_CODES = ['650', '25', 'abc', '2500', '050']
 BAD_ESCS = ['abc', '2.1000.1', '2.0.0 ', '3.1.1', '2.1']
+# the library's pre-defined replies (sources of Reply.copy)
+PREDEFINED = ['unknown_command', 'unknown_parameter', 'bad_sequence', 'bad_arguments', 'timed_out',
+              'unhandled_error', 'connection_failed', 'tls_failure', 'invalid_credentials']
+S = ('S',)
 
 
-def order_templates(a, b, m, m2, e):
-    """(name, start, ops): start None = Reply(), (code, text) = Reply(code, text)"""
-    C, M, E, F = (lambda c: ('C', c)), (lambda v: ('M', v)), (lambda v: ('E', v)), ('F',)
+def order_templates(a, b, m, m2, e, pre1, pre2):
+    """(name, start, ops): start None = Reply(), (code, text) = Reply(code, text).
+    Operations: ('C', code) ('M', text) ('E', str|None) ('F',) = ESC False, ('K', name | [code, text]) =
+    reply.copy(predefined reply | Reply(code, text)), ('S',) = write the object now.  Every sequence is
+    written once more at its end."""
+    C, M, E, F, K = (lambda c: ('C', c)), (lambda v: ('M', v)), (lambda v: ('E', v)), ('F',), (lambda o: ('K', o))
     return [
         ('ctor', (a, m), ()),
         ('code,msg', None, (C(a), M(m))),
@@ -502,25 +510,40 @@ def order_templates(a, b, m, m2, e):
         ('msg,esc,code', None, (M(m), E(e), C(b))),
         ('ctor,escfalse,code', (a, m), (F, C(b))),
         ('ctor,code,escfalse', (a, m), (C(b), F)),
+        # the same object written more than once, re-populated in between
+        ('ctor,send,send', (a, m), (S, S)),
+        ('ctor,send,code,send', (a, m), (S, C(b), S)),
+        ('ctor,send,msg2,send', (a, m), (S, M(m2), S)),
+        ('ctor,send,esc,send', (a, m), (S, E(e), S)),
+        ('ctor,send,copy-predefined,send', (a, m), (S, K(pre1), S)),
+        ('ctor,send,copy-built,send', (a, m), (S, K((b, m2)), S)),
+        ('copy,send,copy,send', None, (K(pre1), S, K(pre2), S)),
+        ('copy-built,send,copy,send,code,send', None, (K((a, m)), S, K(pre1), S, C(b), S)),
+        ('ctor,copy,send', (a, m), (K(pre2), S)),
+        ('ctor,send,copy-same,send', (a, m), (S, K((a, m)), S)),
     ]
 
 
 def gen_order(rng):
     ops = []
-    for _ in range(rng.randrange(1, 7)):
+    for _ in range(rng.randrange(1, 8)):
         k = rng.random()
-        if k < 0.4:
+        if k < 0.3:
             ops.append(('C', rng.choice(BAD_CODES) if rng.random() < 0.1 else gen_code(rng) if rng.random() < 0.7 else str(rng.randrange(100, 200))))
-        elif k < 0.7:
+        elif k < 0.5:
             ops.append(('M', gen_text(rng, rng.choice(ORDER_CODES))))
-        elif k < 0.95:
+        elif k < 0.65:
             r = rng.random()
             ops.append(('E', None if r < 0.15 else rng.choice(BAD_ESCS) if r < 0.3 else gen_esc_prefix(rng, rng.choice(ORDER_CODES))[1]))
-        else:
+        elif k < 0.7:
             ops.append(('F',))
-    if not any(o[0] == 'M' for o in ops):
+        elif k < 0.85:
+            ops.append(('K', rng.choice(PREDEFINED) if rng.random() < 0.5 else gen_reply(rng)))
+        else:
+            ops.append(S)
+    if not any(o[0] in 'MK' for o in ops):
         ops.insert(rng.randrange(len(ops) + 1), ('M', gen_text(rng)))
-    if rng.random() < 0.9:
+    if rng.random() < 0.7:
         ops.append(('C', gen_code(rng)))
     start = None if rng.random() < 0.5 else gen_reply(rng)
     return ('random', start, tuple(ops))
@@ -529,8 +552,13 @@ def gen_order(rng):
 EXPECTED_SETTER_ERRORS = ('Invalid SMTP reply code', 'Invalid ENHANCEDSTATUSCODES string')
 
 
+def copy_source(o):
+    """the other reply of reply.copy(other): a pre-defined reply of the library or Reply(code, text)"""
+    return getattr(reply_mod, o) if isinstance(o, str) else Reply(*o)
+
+
 def impl_apply(r, op):
-    """one setter operation; 1 if the setter refused the value (ValueError of the code / ESC setter)"""
+    """one operation; 1 if a setter refused the value (ValueError of the code / ESC setter)"""
     try:
         if op[0] == 'C':
             r.code = op[1] or None
@@ -538,6 +566,8 @@ def impl_apply(r, op):
             r.message = op[1]
         elif op[0] == 'E':
             r.enhanced_status_code = op[1] or None
+        elif op[0] == 'K':
+            r.copy(copy_source(op[1]))
         else:
             r.enhanced_status_code = False
     except ValueError as exc:
@@ -547,50 +577,92 @@ def impl_apply(r, op):
     return 0
 
 
-def impl_order(start, ops):
-    """-> (code, message, esc, wire or None, flags, esc_off)"""
-    r = Reply(*start) if start else Reply()
-    flags = [impl_apply(r, op) for op in ops]
+def impl_snapshot(r):
+    """the object as it stands and what Reply.send writes for it now:
+    (code, message, esc, wire or None, esc switched off)"""
     code, msg, esc = r.code, r.message, r.enhanced_status_code
     wire = None
     if code and VALID_CODE.match(code) and msg is not None:
         io = IO(ScriptSocket(), ('h', 25))
         r.send(io)
         wire = io.send_buffer.getvalue()
-    return code or '', msg if msg is not None else '', esc, wire, flags, (esc is None and bool(code) and code[0] in '245')
+    return (code or '', msg if msg is not None else '', esc, wire, (esc is None and bool(code) and code[0] in '245'))
 
 
-def model_ops(start, ops):
-    enc = {'C': 0, 'M': 1, 'E': 2, 'F': 3}
+def impl_order(start, ops):
+    """-> (snapshots at every send, flags); `ops` ends with a send"""
+    r = Reply(*start) if start else Reply()
+    sends, flags = [], []
+    for op in ops:
+        if op[0] == 'S':
+            sends.append(impl_snapshot(r))
+            flags.append(0)
+        else:
+            flags.append(impl_apply(r, op))
+    return sends, flags
+
+
+def model_flat(start, ops):
+    enc = {'C': 0, 'M': 1, 'E': 2, 'F': 3, 'S': 5}
     out = []
     if start:
         out += [[0, start[0]], [2, ''], [1, start[1]]]       # Reply(code, text) = code setter, ESC None, message setter
     for op in ops:
-        out.append([enc[op[0]], (op[1] or '') if len(op) > 1 else ''])
+        if op[0] == 'K':
+            src = op[1]
+            if isinstance(src, str):
+                p = getattr(reply_mod, src)
+                src = (p.code, p.message)     # the pre-defined reply as the source states it: Reply(code, text)
+            out.append([4, model_flat(tuple(src), ())])
+        else:
+            out.append([enc[op[0]], (op[1] or '') if len(op) > 1 else ''])
     return out
 
 
 def order_case(start, ops):
-    return dict(start=list(start) if start else None, ops=[list(o) for o in ops], op='ops')
+    return dict(start=list(start) if start else None, ops=[[o[0]] + [list(x) if isinstance(x, tuple) else x for x in o[1:]] for o in ops], op='ops')
+
+
+def ops_from_case(c):
+    start = tuple(c['start']) if c.get('start') else None
+    ops = tuple(tuple(tuple(x) if isinstance(x, list) else x for x in o) for o in c['ops'])
+    return start, ops
+
+
+def describe_ops(start, ops):
+    names = {'C': 'code', 'M': 'message', 'E': 'enhanced_status_code'}
+    out = ['r = Reply(%r, %r)' % tuple(start) if start else 'r = Reply()']
+    for o in ops:
+        if o[0] == 'S':
+            out.append('r.send(io)')
+        elif o[0] == 'K':
+            out.append('r.copy(%s)' % (o[1] if isinstance(o[1], str) else 'Reply(%r, %r)' % tuple(o[1])))
+        elif o[0] == 'F':
+            out.append('r.enhanced_status_code = False')
+        else:
+            out.append('r.%s = %r' % (names[o[0]], o[1]))
+    return '; '.join(out)
 
 
 def run_orders(ctx, n_random, everycut_one_in):
-    """the same reply put together in different ORDERS (constructor; code then message; message then code;
-    code changed afterwards to every other class; ESC set before / after the code change; message re-assigned),
-    sent and read back with a pipelined successor.  Oracle on the implementation alone: a shown ESC has the
-    class digit of the code the object has when it is sent; what is read back is the code and the text the
-    object showed when it was sent."""
+    """one Reply object under operation sequences: the same reply put together in different ORDERS (constructor;
+    code then message; message then code; code changed afterwards to every other class; ESC set before / after
+    the code change; message re-assigned), written SEVERAL times with setters or Reply.copy(pre-defined / built
+    reply) in between.  Every write is read back with a pipelined successor.  Oracle on the implementation alone:
+    a shown ESC has the class digit of the code the object has when it is written; what is written is the encoding
+    of the code and text the object shows at that moment (independent encoder), and reading it back gives them."""
     rng = ctx.rng
     orders = []
     for a in ORDER_CODES:
         for b in ORDER_CODES:
             for i, m in enumerate(ORDER_MSGS):
+                n = len(orders)
                 m2 = ORDER_MSGS[(i + 3) % len(ORDER_MSGS)]
-                e = ORDER_ESCS[(i + len(orders)) % len(ORDER_ESCS)]
-                orders += order_templates(a, b, m, m2, e)
+                e = ORDER_ESCS[(i + n) % len(ORDER_ESCS)]
+                orders += order_templates(a, b, m, m2, e, PREDEFINED[n % len(PREDEFINED)], PREDEFINED[(n // 7 + 4) % len(PREDEFINED)])
     orders += [gen_order(rng) for _ in range(n_random)]
-    orders = list(dict.fromkeys(orders))
-    mouts = ctx.model.batch('c17_ops', [model_ops(st, ops) for (_, st, ops) in orders])
+    orders = [(name, start, ops if ops and ops[-1] == S else ops + (S,)) for (name, start, ops) in dict.fromkeys(orders)]
+    mouts = ctx.model.batch('c17_ops', [model_flat(st, ops) for (_, st, ops) in orders])
     successor = ('250', 'ok')
     built = build_all(ctx, [successor])
     jobs = []
@@ -598,36 +670,146 @@ def run_orders(ctx, n_random, everycut_one_in):
         ctx.count('order:' + name)
         case = order_case(start, ops)
         try:
-            code, msg, esc, wire, flags, esc_off = impl_order(start, ops)
+            sends, flags = impl_order(start, ops)
         except Exception as exc:
-            report(ctx, 'c17:build-raises', case, 'setter sequence raised %s' % exc_text(exc))
+            report(ctx, 'c17:build-raises', case, '%s raised %s' % (describe_ops(start, ops), exc_text(exc)))
             ctx.mismatch('ops-raises', case, exc_text(exc), mo)
             continue
-        cls = (esc[0], code[0]) if esc and code else None
-        ctx.evaluated(('order', start, ops), nontrivial=(len(ops) > 0))
-        m_wire = B(mo[3]) if wire is not None else None
-        im = (code, msg, (esc,) if esc is not None else (), wire, ((0, 0, 0) if start else ()) + tuple(flags))
-        mm = (U(mo[0]), U(mo[1]), tuple(U(x) for x in mo[2]), m_wire, tuple(mo[4]))
+        ctx.evaluated(('order', start, ops), nontrivial=(len(ops) > 1))
+        im = (tuple((c, m, (e,) if e is not None else (), w) for (c, m, e, w, _) in sends), ((0, 0, 0) if start else ()) + tuple(flags))
+        mm = (tuple((U(x[0]), U(x[1]), tuple(U(y) for y in x[2]), B(x[3]) if sends[k][3] is not None else None) for k, x in enumerate(mo[6][:len(sends)])) if len(mo[6]) == len(sends) else mo[6],
+              tuple(mo[4]))
         if im != mm:
             ctx.mismatch('ops', case, im, mm)
-        if cls and cls[0] != cls[1]:
-            report(ctx, 'c17:esc-class-differs-from-code-class', dict(case, code=code, text=msg),
-                   'after %s%s the reply has code %s but shows enhanced status %s (message %r%s)' % (
-                       'Reply(%r, %r)' % tuple(start) if start else 'Reply()', ''.join('; %s=%r' % ({'C': 'code', 'M': 'message', 'E': 'enhanced_status_code'}.get(o[0], 'enhanced_status_code'), o[1] if len(o) > 1 else False) for o in ops),
-                       code, esc, msg, ', written as %r' % wire if wire is not None else ''))
-        if esc is not None and code and code[0] not in '245':
-            report(ctx, 'c17:esc-class-differs-from-code-class', dict(case, code=code, text=msg), 'code %s has no enhanced status class but the reply shows %s' % (code, esc))
-        if wire is None:
-            ctx.count('order:not-sendable')
-            continue
-        if esc_off:
-            ctx.count('order:esc-switched-off-roundtrip-not-judged')   # the receiving side shows its default ESC
-            continue
-        key = (code, msg, start, ops)
-        built[key] = (msg, wire)
-        s = [key, successor] if i % 2 == 0 else [key]
-        jobs += seg_jobs(rng, s, built, TRAILERS[i % len(TRAILERS)], ['whole', 'bytes', 'random'], i % everycut_one_in == 0)
+        for k, (code, msg, esc, wire, esc_off) in enumerate(sends):
+            ctx.count('order-writes')
+            where = dict(case, send_index=k, code=code, text=msg)
+            if esc and code and esc[0] != code[0]:
+                report(ctx, 'c17:esc-class-differs-from-code-class', where,
+                       'after %s the reply has code %s but shows enhanced status %s at write %d (message %r%s)' % (
+                           describe_ops(start, ops), code, esc, k, msg, ', written as %r' % wire if wire is not None else ''))
+            if esc is not None and code and code[0] not in '245':
+                report(ctx, 'c17:esc-class-differs-from-code-class', where, 'code %s has no enhanced status class but the reply shows %s' % (code, esc))
+            if wire is None:
+                ctx.count('order:not-sendable')
+                continue
+            want = ref_wire(code, msg)
+            if wire != want:
+                report(ctx, 'c17:send-does-not-reflect-current-state', where,
+                       '%s: write %d put %r on the wire while the object has code %r and shows %r (encoding of that: %r)' % (
+                           describe_ops(start, ops), k, wire, code, msg, want))
+            if esc_off:
+                ctx.count('order:esc-switched-off-roundtrip-not-judged')   # the receiving side shows its default ESC
+                continue
+            key = (code, msg, start, ops, k)
+            built[key] = (msg, wire)
+            s = [key, successor] if (i + k) % 2 == 0 else [key]
+            last = (k + 1 == len(sends))
+            jobs += seg_jobs(rng, s, built, TRAILERS[(i + k) % len(TRAILERS)], ['whole', 'bytes', 'random'] if last and i % 3 == 0 else ['whole', 'random'],
+                             last and i % everycut_one_in == 0)
     parse_back(ctx, jobs, built)
+
+
+# ------------------------------------------------------------ line sizes around the read size
+READ_SIZE = 4096        # IO.raw_recv: socket.recv(4096)
+SIZE_SHAPES = ['single', 'long-first', 'long-middle', 'long-last']
+SIZE_SEGS = ['whole', 'read-4096', 'read-4095', 'read-4097', 'read-1000', 'before-crlf']
+
+
+def size_reply(code, L, delta, charset, shape):
+    """(code, text) whose long line is L - delta bytes ON THE WIRE (code, separator, ESC and CRLF included);
+    charset 'ascii' or 'utf8-3' (3-byte characters, so a read boundary falls inside a character)"""
+    probe = impl_build(code, 'x')[1]
+    n = L - delta - (len(probe) - 1)             # bytes of text in the long line
+    if shape in ('long-middle', 'long-last'):
+        n += len(probe) - 1 - 6                  # the ESC is shown on the first line only
+    if charset == 'ascii':
+        long_line = ''.join('abcdefghij'[i % 10] for i in range(n))
+    else:
+        long_line = 'x' * (n % 3) + '€' * (n // 3)
+    return {'single': long_line, 'long-first': long_line + '\nsecond line\nthird',
+            'long-middle': 'first line\n' + long_line + '\nthird', 'long-last': 'first line\nsecond\n' + long_line}[shape]
+
+
+def read_chunks(data, size):
+    """what socket.recv(4096) hands over when the peer's data arrives in pieces of `size` bytes"""
+    out = []
+    for i in range(0, len(data), size):
+        piece = data[i:i + size]
+        out += [piece[j:j + READ_SIZE] for j in range(0, len(piece), READ_SIZE)]
+    return out
+
+
+def size_chunks(data, seg, wire):
+    if seg == 'whole':
+        return read_chunks(data, len(data))
+    if seg.startswith('read-'):
+        return read_chunks(data, int(seg[5:]))
+    # everything up to the CRLF of the longest line, then the rest
+    lines = wire.split(b'\r\n')
+    longest = max(range(len(lines)), key=lambda i: len(lines[i]))
+    cut = sum(len(l) + 2 for l in lines[:longest]) + len(lines[longest])
+    return read_chunks(data[:cut], READ_SIZE) + read_chunks(data[cut:], READ_SIZE)
+
+
+def size_run_one(p):
+    """p: parameters -> (code, shown text, wire, chunks, expected remaining, implementation result)"""
+    text = size_reply(p['code'], p['L'], p['delta'], p['charset'], p['shape'])
+    msg, wire, esc = impl_build(p['code'], text)
+    succ = impl_build('250', 'ok')[1] if p['successor'] else b''
+    chunks = size_chunks(wire + succ, p['seg'], wire)
+    return msg, wire, chunks, succ, impl_recv(b'', chunks)
+
+
+def run_sizes(ctx, Ls, big, full):
+    """reply lines of L - delta bytes around the 4096-byte read of raw_recv and beyond, ASCII and 3-byte
+    characters, the long line alone / first / in the middle / last, a successor pipelined, read in 4096-byte
+    reads (the real read size), 4095, 4097, 1000, and cut directly before the long line's CRLF"""
+    params = []
+    variants = [(charset, shape) for charset in ['ascii', 'utf8-3'] for shape in SIZE_SHAPES]
+    n = 0
+    for L in Ls:
+        for delta in range(4):
+            for gi, seg in enumerate(SIZE_SEGS):
+                # thorough: the full cross product; quick: two (charset, shape) variants per (L, delta, segmentation),
+                # rotating so that every variant meets every L, delta and segmentation
+                picks = variants if full else [variants[(n + gi) % 8], variants[(n + gi + 5) % 8]]
+                for (charset, shape) in picks:
+                    code = ['250', '550', '354', '451'][(n + gi + len(shape)) % 4]
+                    params.append(dict(code=code, L=L, delta=delta, charset=charset, shape=shape, seg=seg, successor=True))
+            n += 1
+    for L in big:
+        for ci, charset in enumerate(['ascii', 'utf8-3']):
+            for si, shape in enumerate(['single', 'long-middle']):
+                for gi, seg in enumerate(['read-4096', 'read-1000', 'before-crlf']):
+                    if full or (ci + si + gi) % 2 == 0:
+                        params.append(dict(code='550', L=L, delta=0, charset=charset, shape=shape, seg=seg, successor=True))
+    runs = []
+    for p in params:
+        try:
+            runs.append((p, size_run_one(p)))
+        except Exception as exc:
+            report(ctx, 'c17:build-raises', dict(size=p), 'long reply %r: build/send raised %s' % (p, exc_text(exc)))
+    outs = ctx.model.batch('c17_recv', [[b'', chunks] for (_, (_, _, chunks, _, _)) in runs])
+    for (p, (msg, wire, chunks, succ, io_out)), o in zip(runs, outs):
+        longest = max(len(l) + 2 for l in wire.split(b'\r\n')[:-1])
+        ctx.count('size:L=%d' % p['L'])
+        ctx.count('size:seg=' + p['seg'])
+        ctx.evaluated(('size', tuple(sorted(p.items()))), nontrivial=True)
+        if longest != p['L'] - p['delta']:
+            ctx.mismatch('size-generator', dict(size=p), longest, p['L'] - p['delta'])
+        mo = model_recv_out(o, chunks)
+        if io_out[:4] != mo:
+            ctx.mismatch('recv-size', dict(size=p), tuple(x if not isinstance(x, (bytes, str)) or len(x) < 80 else (len(x), x[:30]) for x in io_out[:4]),
+                         tuple(x if not isinstance(x, (bytes, str)) or len(x) < 80 else (len(x), x[:30]) for x in mo))
+        if judge_recv_exception(ctx, io_out, dict(size=p)):
+            continue
+        if io_out[:4] != (0, p['code'], norm(msg), succ):
+            got = tuple(x if not isinstance(x, (bytes, str)) or len(x) < 80 else '%s... (%d)' % (x[:30], len(x)) for x in io_out)
+            report(ctx, 'c17:long-line-roundtrip', dict(size=p),
+                   'a %s reply whose longest line is %d bytes on the wire (%s, %s), written by the library and read %s with a successor behind it, came back as %r' % (
+                       p['code'], longest, p['charset'], p['shape'], p['seg'], got))
+    ctx.sample(dict(kind='line-sizes', L=list(Ls) + list(big), deltas=[0, 1, 2, 3], segmentations=SIZE_SEGS, shapes=SIZE_SHAPES, count=len(params)))
 
 
 # ------------------------------------------------------------ the two patterns of reply.py
@@ -758,7 +940,8 @@ def run(ctx):
         ('classes', lambda: run_classes(ctx)),
         ('esc-matrix', lambda: run_esc_matrix(ctx, 16 if ctx.quick else 1)),
         ('peer-esc', lambda: run_peer_esc(ctx, 500 if ctx.quick else 20000)),
-        ('orders', lambda: run_orders(ctx, 1500 if ctx.quick else 30000, 8 if ctx.quick else 2)),
+        ('orders', lambda: run_orders(ctx, 1500 if ctx.quick else 30000, 16 if ctx.quick else 2)),
+        ('sizes', lambda: run_sizes(ctx, [1000, 4095, 4096, 4097, 5000, 8192] if ctx.quick else [1000, 4095, 4096, 4097, 5000, 8192, 16384, 65536], [16384, 65536] if ctx.quick else [131072], not ctx.quick)),
         ('structured', lambda: run_structured(ctx, 800 if ctx.quick else 4000)),
         ('patterns', lambda: run_patterns(ctx, 5 if ctx.quick else 7, 6 if ctx.quick else 7)),
         ('malformed', lambda: run_malformed(ctx, 5 if ctx.quick else 7)),
@@ -789,36 +972,59 @@ def replay(ctx, case):
             rc = 1
         if ctx.model:
             print('model         :', model_recv_out(ctx.model.call('c17_recv', [buf, chunks]), chunks))
-    if c.get('ops') is not None:
-        start = tuple(c['start']) if c.get('start') else None
-        ops = tuple(tuple(o) for o in c['ops'])
-        print('%s%s' % ('Reply(%r, %r)' % start if start else 'Reply()', ''.join('; %s = %r' % ({'C': 'code', 'M': 'message'}.get(o[0], 'enhanced_status_code'), o[1] if len(o) > 1 else False) for o in ops)))
+    if c.get('size') is not None:
+        p = c['size']
+        print('long reply: %r' % (p,))
         try:
-            code, msg, esc, wire, flags, esc_off = impl_order(start, ops)
-            print('implementation: code=%r message=%r enhanced_status_code=%r wire=%r setters refused=%r' % (code, msg, esc, wire, flags))
+            msg, wire, chunks, succ, out = size_run_one(p)
+        except Exception as exc:
+            print('  -> raised %s [c17:build-raises]' % exc_text(exc))
+            return 1
+        lines = wire.split(b'\r\n')[:-1]
+        print('written: %d bytes, lines of %r bytes (+CRLF); read as %d chunks of sizes %r%s' % (
+            len(wire), [len(l) for l in lines], len(chunks), [len(x) for x in chunks[:8]], ' ...' if len(chunks) > 8 else ''))
+        short = tuple(x if not isinstance(x, (bytes, str)) or len(x) < 80 else '%s... (%d)' % (x[:30], len(x)) for x in out)
+        print('implementation:', short)
+        if out[0] == 4:
+            print('  -> [c17:recv-raises-not-badreply]')
+            return 1
+        if out[:4] != (0, p['code'], norm(msg), succ):
+            print('  -> not the reply that was written (code %r, %d characters of text, successor %r left) [c17:long-line-roundtrip]' % (p['code'], len(norm(msg)), succ))
+            return 1
+        print('  = the reply that was written, successor %r left' % succ)
+        return 0
+    if c.get('ops') is not None:
+        # the operation sequence on the CURRENT source: every write judged, then read back
+        start, ops = ops_from_case(c)
+        print(describe_ops(start, ops))
+        try:
+            sends, flags = impl_order(start, ops)
+        except Exception as exc:
+            print('  -> raised %s [c17:build-raises]' % exc_text(exc))
+            return 1
+        mo = ctx.model.call('c17_ops', model_flat(start, ops)) if ctx.model else None
+        print('setters refused: %r' % (flags,))
+        for k, (code, msg, esc, wire, esc_off) in enumerate(sends):
+            print('write %d: object has code=%r message=%r enhanced_status_code=%r; written %r' % (k, code, msg, esc, wire))
+            if mo is not None and k < len(mo[6]):
+                x = mo[6][k]
+                print('  model : code=%r message=%r enhanced_status_code=%r wire=%r' % (U(x[0]), U(x[1]), tuple(U(y) for y in x[2]), B(x[3])))
             if esc and code and esc[0] != code[0]:
                 print('  -> enhanced status class %s differs from the code class %s [c17:esc-class-differs-from-code-class]' % (esc[0], code[0]))
                 rc = 1
-        except Exception as exc:
-            print('  -> raised %s [c17:build-raises]' % exc_text(exc))
-            rc = 1
-        if ctx.model:
-            mo = ctx.model.call('c17_ops', model_ops(start, ops))
-            print('model         : code=%r message=%r enhanced_status_code=%r wire=%r setters refused=%r' % (U(mo[0]), U(mo[1]), tuple(U(x) for x in mo[2]), B(mo[3]), list(mo[4])))
-        if rc == 0 or 'chunks' in c:
-            # the round trip of the object as the CURRENT source builds it, a successor pipelined behind it
-            try:
-                code, msg, esc, wire, flags, esc_off = impl_order(start, ops)
-            except Exception:
-                return rc
-            if wire is not None and not esc_off:
+            if wire is None:
+                continue
+            if wire != ref_wire(code, msg):
+                print('  -> the bytes written are not the encoding %r of the code and text the object has now [c17:send-does-not-reflect-current-state]' % ref_wire(code, msg))
+                rc = 1
+            if not esc_off:
                 back = impl_recv(b'', [wire + b'250 ok\r\n'])
-                print('sent %r, read back: %r' % (wire, back))
+                print('  read back (successor pipelined): %r' % (back,))
                 if back[0] == 4:
                     print('  -> [c17:recv-raises-not-badreply]')
                     rc = 1
                 elif back[:4] != (0, code, norm(msg), b'250 ok\r\n'):
-                    print('  -> not the code / text %r the object showed when it was sent [c17:roundtrip]' % ((code, norm(msg)),))
+                    print('  -> not the code / text %r the object showed when it was written [c17:roundtrip]' % ((code, norm(msg)),))
                     rc = 1
         return rc
     if 'code' in c and 'text' in c:
